@@ -10,6 +10,7 @@ import (
 	"fmt"
 	"os"
 	"strconv"
+	"strings"
 	"testing"
 
 	sdkmath "cosmossdk.io/math"
@@ -23,62 +24,64 @@ type spec struct {
 	amt   int64
 }
 
+type lawViolation string
+
 func checkBook(t *testing.T, tag string, orders []amm.Order, quoteDiff sdkmath.Int, matched bool) (nontrivial bool) {
 	baseIn, baseOut := sdkmath.ZeroInt(), sdkmath.ZeroInt()
 	quoteIn, quoteOut := sdkmath.ZeroInt(), sdkmath.ZeroInt()
 	fills := 0
 	for _, o := range orders {
 		if o.GetOpenAmount().IsNegative() {
-			t.Fatalf("%s: open amount negative: %s", tag, o)
+			panic(lawViolation(fmt.Sprintf("%s: open amount negative: %s", tag, o)))
 		}
 		if o.GetPaidOfferCoinAmount().GT(o.GetOfferCoinAmount()) {
-			t.Fatalf("%s: paid %s more than offer coin %s: %s", tag, o.GetPaidOfferCoinAmount(), o.GetOfferCoinAmount(), o)
+			panic(lawViolation(fmt.Sprintf("%s: paid %s more than offer coin %s: %s", tag, o.GetPaidOfferCoinAmount(), o.GetOfferCoinAmount(), o)))
 		}
 		filled := o.GetAmount().Sub(o.GetOpenAmount())
 		if filled.IsZero() {
 			if !o.GetPaidOfferCoinAmount().IsZero() || !o.GetReceivedDemandCoinAmount().IsZero() {
-				t.Fatalf("%s: unfilled order paid or received: %s", tag, o)
+				panic(lawViolation(fmt.Sprintf("%s: unfilled order paid or received: %s", tag, o)))
 			}
 			continue
 		}
 		fills++
 		if !o.GetReceivedDemandCoinAmount().IsPositive() {
-			t.Fatalf("%s: matched order received nothing: %s", tag, o)
+			panic(lawViolation(fmt.Sprintf("%s: matched order received nothing: %s", tag, o)))
 		}
 		switch o.GetDirection() {
 		case amm.Buy:
 			baseOut = baseOut.Add(o.GetReceivedDemandCoinAmount())
 			quoteIn = quoteIn.Add(o.GetPaidOfferCoinAmount())
 			if !filled.Equal(o.GetReceivedDemandCoinAmount()) {
-				t.Fatalf("%s: buyer filled %s but received %s", tag, filled, o.GetReceivedDemandCoinAmount())
+				panic(lawViolation(fmt.Sprintf("%s: buyer filled %s but received %s", tag, filled, o.GetReceivedDemandCoinAmount())))
 			}
 			// limit: paid <= price*filled + (one quote unit per fill it took part in; an order takes part in at most `fills` fills overall, checked with the book-level dust bound below)
 		case amm.Sell:
 			baseIn = baseIn.Add(o.GetPaidOfferCoinAmount())
 			quoteOut = quoteOut.Add(o.GetReceivedDemandCoinAmount())
 			if !filled.Equal(o.GetPaidOfferCoinAmount()) {
-				t.Fatalf("%s: seller filled %s but paid %s", tag, filled, o.GetPaidOfferCoinAmount())
+				panic(lawViolation(fmt.Sprintf("%s: seller filled %s but paid %s", tag, filled, o.GetPaidOfferCoinAmount())))
 			}
 		}
 	}
 	if !baseIn.Equal(baseOut) {
-		t.Fatalf("%s: base coin not conserved: sellers paid %s, buyers received %s", tag, baseIn, baseOut)
+		panic(lawViolation(fmt.Sprintf("%s: base coin not conserved: sellers paid %s, buyers received %s", tag, baseIn, baseOut)))
 	}
 	if !matched {
 		if fills != 0 {
-			t.Fatalf("%s: not matched but %d orders filled", tag, fills)
+			panic(lawViolation(fmt.Sprintf("%s: not matched but %d orders filled", tag, fills)))
 		}
 		return false
 	}
 	dust := quoteIn.Sub(quoteOut)
 	if dust.IsNegative() {
-		t.Fatalf("%s: buyers paid %s quote, sellers received %s", tag, quoteIn, quoteOut)
+		panic(lawViolation(fmt.Sprintf("%s: buyers paid %s quote, sellers received %s", tag, quoteIn, quoteOut)))
 	}
 	if !dust.Equal(quoteDiff) {
-		t.Fatalf("%s: returned quoteCoinDiff %s != paid-received %s", tag, quoteDiff, dust)
+		panic(lawViolation(fmt.Sprintf("%s: returned quoteCoinDiff %s != paid-received %s", tag, quoteDiff, dust)))
 	}
 	if fills > 0 && !dust.LT(sdkmath.NewInt(int64(2*fills))) {
-		t.Fatalf("%s: dust %s not smaller than the number of individual fills (%d orders filled)", tag, dust, fills)
+		panic(lawViolation(fmt.Sprintf("%s: dust %s not smaller than the number of individual fills (%d orders filled)", tag, dust, fills)))
 	}
 	return fills > 0
 }
@@ -98,8 +101,19 @@ func TestVerifC05BookLaws(t *testing.T) {
 			specs = append(specs, spec{p, a})
 		}
 	}
-	evals, nontriv := 0, 0
-	var sample string
+	evals, nontriv, bad, knownHits := 0, 0, 0, 0
+	var sample, firstBad, knownExample string
+	var allBad []string
+	known := map[string]bool{}
+	if kf := os.Getenv("VERIF_C05_KNOWN"); kf != "" {
+		if b, err := os.ReadFile(kf); err == nil {
+			for _, l := range strings.Split(string(b), "\n") {
+				if l = strings.TrimSpace(l); l != "" && !strings.HasPrefix(l, "#") {
+					known[l] = true
+				}
+			}
+		}
+	}
 	var rec func(side int, buys, sells []spec)
 	run := func(buys, sells []spec) {
 		for _, lp := range lastPrices {
@@ -127,12 +141,34 @@ func TestVerifC05BookLaws(t *testing.T) {
 					diff, matched = ob.MatchAtSinglePrice(utils.ParseDec(lp))
 				}
 				evals++
-				if checkBook(t, tag, orders, diff, matched) {
-					nontriv++
-					if sample == "" {
-						sample = tag
+				func() {
+					defer func() {
+						if r := recover(); r != nil {
+							lv, ok := r.(lawViolation)
+							if !ok {
+								panic(r)
+							}
+							if known[string(lv)] {
+								knownHits++
+								if knownExample == "" {
+									knownExample = string(lv)
+								}
+							} else {
+								bad++
+								if firstBad == "" {
+									firstBad = string(lv)
+								}
+							}
+							allBad = append(allBad, string(lv))
+						}
+					}()
+					if checkBook(t, tag, orders, diff, matched) {
+						nontriv++
+						if sample == "" {
+							sample = tag
+						}
 					}
-				}
+				}()
 			}
 		}
 	}
@@ -168,8 +204,33 @@ func TestVerifC05BookLaws(t *testing.T) {
 		}
 	}
 	rec(0, nil, nil)
-	if out := os.Getenv("VERIF_BOUNDED_OUT"); out != "" {
-		os.WriteFile(out, []byte(`{"function":"amm.OrderBook.Match / MatchAtSinglePrice (with FindMatchableAmountAtSinglePrice, DistributeOrderAmountToTick, DistributeOrderAmountToOrders, FulfillOrders)","label":"bounded","bound":"all books with 1..`+strconv.Itoa(maxBuy)+` buy and 1..`+strconv.Itoa(maxSell)+` sell base orders (multisets), prices in `+fmt.Sprint(prices)+`, amounts in `+fmt.Sprint(amts)+`, last price in `+fmt.Sprint(lastPrices)+`, both matching modes; exhaustive within the bound","evaluations":`+strconv.Itoa(evals)+`,"distinct_nontrivial":`+strconv.Itoa(nontriv)+`,"rule":"a case is one (book, last price, mode); non-trivial when at least one order is filled","sample":"`+sample+`","laws":["base coin received by buyers == base coin paid by sellers","quote paid - quote received == returned quoteCoinDiff >= 0 and < 2 x filled orders","paid <= offer coin, open amount >= 0","a matched order receives a positive amount","unfilled orders neither pay nor receive"]}`), 0o644)
+	// second family: prices below 1 whose reciprocal is not an integer (the marginal sell tick of a single-price match is
+	// worth less than one quote coin exactly when its partial fill is below ceil(1/p)), amounts around 1/p and around the
+	// sum of two ticks
+	firstFamily := fmt.Sprintf("prices in %v, amounts in %v, last price in %v", prices, amts, lastPrices)
+	prices2 := []string{"0.299", "0.3", "0.007"}
+	amts2 := []int64{3, 4, 142, 1000, 1003}
+	lastPrices = []string{"0.3", "0.007"}
+	specs = nil
+	for _, p := range prices2 {
+		for _, a := range amts2 {
+			specs = append(specs, spec{p, a})
+		}
 	}
-	t.Logf("bounded C05: %d evaluations, %d non-trivial", evals, nontriv)
+	rec(0, nil, nil)
+	secondFamily := fmt.Sprintf("prices in %v, amounts in %v, last price in %v", prices2, amts2, lastPrices)
+	knownJSON := ""
+	if knownHits > 0 {
+		knownJSON = `"known_finding":{"obligation":"bounded/c05#book-laws","instances":` + strconv.Itoa(knownHits) + `,"example":` + strconv.Quote(knownExample) + `},`
+	}
+	if out := os.Getenv("VERIF_BOUNDED_OUT"); out != "" {
+		os.WriteFile(out, []byte(`{"function":"amm.OrderBook.Match / MatchAtSinglePrice (with FindMatchableAmountAtSinglePrice, DistributeOrderAmountToTick, DistributeOrderAmountToOrders, FulfillOrders)","label":"bounded","bound":"all books with 1..`+strconv.Itoa(maxBuy)+` buy and 1..`+strconv.Itoa(maxSell)+` sell base orders (multisets), two families: `+firstFamily+`; and `+secondFamily+`; both matching modes; exhaustive within the bound","evaluations":`+strconv.Itoa(evals)+`,"violating":`+strconv.Itoa(bad)+`,`+knownJSON+`"distinct_nontrivial":`+strconv.Itoa(nontriv)+`,"rule":"a case is one (book, last price, mode); non-trivial when at least one order is filled","sample":"`+sample+`","laws":["base coin received by buyers == base coin paid by sellers","quote paid - quote received == returned quoteCoinDiff >= 0 and < 2 x filled orders","paid <= offer coin, open amount >= 0","a matched order receives a positive amount","unfilled orders neither pay nor receive"]}`), 0o644)
+	}
+	if dump := os.Getenv("VERIF_C05_DUMP"); dump != "" {
+		os.WriteFile(dump, []byte(strings.Join(allBad, "\n")+"\n"), 0o644)
+	}
+	if bad > 0 {
+		t.Fatalf("%d of %d books violate a law (beyond the %d exactly listed known cases); first: %s", bad, evals, knownHits, firstBad)
+	}
+	t.Logf("bounded C05: %d evaluations, %d non-trivial, %d known cases", evals, nontriv, knownHits)
 }
